@@ -4,6 +4,7 @@ mod util;
 mod board;
 mod values;
 mod cand;
+mod hashkeys;
 
 fn main() {
     let argv: Vec<String> = std::env::args().collect();
@@ -14,6 +15,7 @@ fn main() {
         Some("pm") => values::run_pm(&args),
         Some("coord") => values::run_coord(&args),
         Some("geom") => values::run_geom(&args),
+        Some("hashkeys") => hashkeys::run(&args),
         Some("cand") => cand::run_cand(&args),
         Some("starts") => cand::run_starts(&args),
         Some("parse") => cand::run_parse(&args),
